@@ -194,6 +194,10 @@ class Sky130Walker(h.HierarchyWalker):
         #     msg = f"Mos module choice not well-defined given parameters {args}"
         #     raise RuntimeError(msg)
 
+        if not subset:
+            msg = f"No Mos module for parameters {args}"
+            raise RuntimeError(msg)
+
         # Return the first one (supported as of 3.7)
         return next(iter(subset.values()))
 
